@@ -709,6 +709,70 @@ def d_igncontrib(ctx, inputs, paths, ref, opt):
             ctx.require(ok, "igncontrib:curve", input=ai.name, expected=exp, actual=[(float(a), float(b)) for a, b in got])
 
 
+def d_economicvalue(ctx, inputs, paths, ref, opt):
+    thr, bin_type = opt
+    r, fig, out = render(paths + ["-m", "economicvalue", "-r", gen.fmt_num(thr), "-b", bin_type])
+    if r.kind != "ok":
+        return ctx.fail("economicvalue:%s:%s" % (r.kind, r.site or "rejected"))
+    lbl = lines_by_label(fig)
+    ratios = [(k / 20.0) ** 3 for k in range(21)]
+    for i, ai in enumerate(inputs):
+        ls = one_line(ctx, lbl, ai.name, "economicvalue")
+        if not ls:
+            continue
+        rows = event_rows(ref, i, thr, bin_type)
+        n = float(len(rows))
+        clim = sum(o for o, p in rows) / n
+        exp = []
+        for c in ratios:
+            # expense of acting on the forecast: protect (cost c) when p >= c, otherwise suffer the loss 1 when the event occurs
+            total = (c * sum(1 for o, p in rows if p >= c) + sum(1 for o, p in rows if p < c and o == 1)) / n
+            clim_cost = min(clim, c)
+            perfect = clim * c
+            exp.append(0.0 if clim_cost == perfect else (clim_cost - total) / (clim_cost - perfect))
+        ctx.require(same_points(list(zip(ratios, exp)), list(zip(ls[0][0], ls[0][1])), tol=1e-6), "economicvalue:curve", input=ai.name, expected=exp[:6], actual=ls[0][1].tolist()[:6])
+
+
+def d_rank(ctx, inputs, paths, ref, opt):
+    metric, axis = opt
+    if len(inputs) != 2:
+        return
+    r, fig, out = render(paths + ["-m", metric, "-type", "rank", "-x", axis])
+    if r.kind != "ok":
+        return ctx.fail("rank:%s:%s" % (r.kind, r.site or "rejected"))
+    import matplotlib.container
+    ax = fig.axes[0]
+    conts = {str(c.get_label()): [p.get_height() for p in c.patches] for c in ax.containers if isinstance(c, matplotlib.container.BarContainer)}
+    nsl = len(ref.axis_values(axis))
+    y = [[RS.score(ref, metric, i, axis, k) for i in range(2)] for k in range(nsl)]
+    valid = [row for row in y if all(v is not None and not math.isnan(v) for v in row)]
+    if not valid:
+        return
+    flat = [v for row in y for v in row if v is not None and not math.isnan(v)]
+    mean = sum(flat) / len(flat)
+    std = math.sqrt(sum((v - mean) ** 2 for v in flat) / len(flat))
+    positive = metric in ("corr",)
+    counts = {"a": [0, 0], "b": [0, 0], "none": [0, 0]}
+    for row in valid:
+        if abs(row[0] - row[1]) < std / 50:
+            counts["none"][0] += 1
+            counts["none"][1] += 1
+            continue
+        first = 0 if row[0] < row[1] else 1            # smallest score first
+        order = [first, 1 - first]
+        if positive:
+            order = order[::-1]
+        for rank, who in enumerate(order):
+            counts["a" if who == 0 else "b"][rank] += 1
+    n = float(len(valid))
+    exp = {inputs[0].name: [c / n for c in counts["a"]], inputs[1].name: [c / n for c in counts["b"]], "None": [c / n for c in counts["none"]]}
+    for label, e in exp.items():
+        got = conts.get(label)
+        if not ctx.require(got is not None and len(got) == 2, "rank:series-missing", label=label, labels=sorted(conts)):
+            continue
+        ctx.require(all(abs(a - b) < 1e-9 for a, b in zip(e, got)), "rank:fractions", label=label, metric=metric, axis=axis, expected=e, actual=got)
+
+
 DIAGRAMS = {
     "standard": (d_standard, [("mae", "leadtime"), ("mae", "location"), ("corr", "time"), ("ets", "leadtime"), ("bs", "leadtime"), ("rmse", "no"), ("bias", "month"), ("mae", "leadtimeday")]),
     "obsfcst": (d_obsfcst, ["leadtime", "time", "location", ("leadtime", (0.1, 0.9)), ("location", (0.9, 0.5, 0.1))]),
@@ -732,6 +796,8 @@ DIAGRAMS = {
     "invreliability": (d_invreliability, [0.5, 0.1]),
     "autocorr": (d_autocorr, ["leadtime", "time"]),
     "igncontrib": (d_igncontrib, [(2.0, "above"), (1.0, "below")]),
+    "economicvalue": (d_economicvalue, [(2.0, "above"), (1.0, "below")]),
+    "rank": (d_rank, [("mae", "leadtime"), ("mae", "time"), ("corr", "location"), ("bias", "time")]),
 }
 
 
